@@ -85,8 +85,34 @@ def Cache.run (sumOf : Nat → Nat) (c : Cache) : List Op → Cache × List Ret
     let (c2, rs) := Cache.run sumOf c1 ops
     (c2, r :: rs)
 
+/-! ## where the map comes from after a `Flush`
+
+The capacity lives in the map object (every shard's maximum, fixed when the map
+is created from the normalised size). `Cache.step` empties the shards and leaves
+`perShard` alone: that is `Flush` emptying the one map made in `New`. The other
+possibility is a `Flush` that puts a newly made map there,
+`NewMapCache(size)` for whatever `size` it has at hand (not normalised; `0` for
+a field that was never filled in). Which one the code does is a regenerated fact. -/
+
+/-- `rebuild = none`: empty the map in place; `rebuild = some size`: replace it by `NewMapCache(size)` -/
+def Cache.flushIn (rebuild : Option Int) (c : Cache) : Cache :=
+  match rebuild with
+  | none => { c with shards := fun _ => [] }
+  | some size => ⟨size.toNat / shardCount, fun _ => []⟩
+
+def Cache.stepIn (rebuild : Option Int) (sumOf : Nat → Nat) (c : Cache) : Op → Cache × Ret
+  | .flush => (c.flushIn rebuild, .none)
+  | op => c.step sumOf op
+
+def Cache.runIn (rebuild : Option Int) (sumOf : Nat → Nat) (c : Cache) : List Op → Cache × List Ret
+  | [] => (c, [])
+  | op :: ops =>
+    let (c1, r) := c.stepIn rebuild sumOf op
+    let (c2, rs) := Cache.runIn rebuild sumOf c1 ops
+    (c2, r :: rs)
+
 /-- the specification: what was last stored under a key and not flushed since -/
-def specStep (spec : Nat → Option Entry) : Op → (Nat → Option Entry)
+def specStep(spec : Nat → Option Entry) : Op → (Nat → Option Entry)
   | .store key val exp now _ => if now > exp then spec else fun k => if k = key then some ⟨key, val, exp⟩ else spec k
   | .flush => fun _ => none
   | _ => spec
